@@ -60,26 +60,38 @@ Proof. exact c20_body_enabled. Qed.
 Print Assumptions C20_body_enabled.
 
 (* ---- 3. silent clients ---- *)
-(* with a timeout configured the time-out of a silent connection is always enabled and finishes it ...
-   (WReading begins at accept -- settimeout is called in get_request -- so this covers a client that never starts the
-   TLS handshake as well as one that is silent after it; checked on the real https server by the ssl scenario) *)
+(* With a timeout configured: in WHICHEVER phase the thread waits for the client -- nothing sent yet (from the accept
+   on: settimeout is called in get_request, so this includes a TLS handshake that never starts), silence inside the
+   request head, head complete with the declared body outstanding, silence in the middle of the body
+   (`waits_for_client`) -- the time-out is enabled and finishes the connection ... *)
 Theorem C20_silent : forall cfg s w, reachable cfg s -> timeout_on cfg = true ->
-  In w (workers s) -> w_st w = WReading -> w_cl w = CIdle ->
-  exists s', step cfg s (TTimeout (w_id w)) = Some (s', [OTimedOut (w_id w)]) /\
+  In w (workers s) -> waits_for_client w = true ->
+  exists s' ob, step cfg s (TTimeout (w_id w)) = Some (s', [ob]) /\
+    (ob = OTimedOut (w_id w) \/ ob = OBodyTimedOut (w_id w)) /\
     pc s' = pc s /\ stop s' = stop s /\ length (workers s') = length (workers s) /\
-    In (set_st (WDone OTimeout) w) (workers s').
+    In (set_st (WDone (timeout_outcome w)) w) (workers s').
 Proof. exact c20_silent. Qed.
 Print Assumptions C20_silent.
+
+(* ... there is no other phase in which a thread waits for the client: an unfinished worker either waits for the
+   client (above), or its thread can move on by itself (input is there), or it is inside the handler proper *)
+Theorem C20_every_wait_has_timeout : forall cfg s w, reachable cfg s -> In w (workers s) -> is_done w = false ->
+  waits_for_client w = true \/
+  (exists s' o, step cfg s (TRead (w_id w)) = Some (s', o)) \/
+  (exists s' o, step cfg s (TBody (w_id w)) = Some (s', o)) \/
+  w_st w = WHandling.
+Proof. exact c20_every_wait_has_timeout. Qed.
+Print Assumptions C20_every_wait_has_timeout.
 
 (* ... and the next iteration frees its slot and polls the listeners again *)
 Theorem C20_silent_frees_slot : forall cfg s rlw rll w, reachable cfg s -> timeout_on cfg = true ->
   pc s = PSelect rlw rll -> stop s = false ->
-  In w (workers s) -> w_st w = WReading -> w_cl w = CIdle ->
-  exists s1 s2 rw rls, step cfg s (TTimeout (w_id w)) = Some (s1, [OTimedOut (w_id w)]) /\
+  In w (workers s) -> waits_for_client w = true ->
+  exists s1 ob s2 rw rls, step cfg s (TTimeout (w_id w)) = Some (s1, [ob]) /\
     step cfg s1 LSelect = Some (s2, [ORset rw rls false]) /\ In (w_id w) rw /\
     (exists acc s3 o3, step cfg s2 (LBody acc) = Some (s3, o3)) /\
     forall acc s3 o3, step cfg s2 (LBody acc) = Some (s3, o3) ->
-      ~ In (w_id w) (ids (workers s3)) /\ In (w_id w, OTimeout) (finished s3) /\
+      ~ In (w_id w) (ids (workers s3)) /\ In (w_id w, timeout_outcome w) (finished s3) /\
       step cfg s3 LBuild = Some (with_pc s3 (PSelect (ids (workers s3)) true), [ORlist (ids (workers s3)) true]).
 Proof. exact c20_silent_frees_slot. Qed.
 Print Assumptions C20_silent_frees_slot.
@@ -121,8 +133,8 @@ Proof. exact c20_size_bound_strong. Qed.
 Print Assumptions C20_size_bound_strong.
 
 (* in the server: status 413 (or an earlier gate's status), the handler is not invoked, the thread finishes *)
-Theorem C20_413 : forall cfg s w r z, reachable cfg s -> internal (gc cfg) = true -> 0 < max_len (gc cfg) ->
-  In w (workers s) -> w_st w = WReading -> w_cl w = CSent (RHttp r) -> r_cl r = ClInt z -> max_len (gc cfg) < z ->
+Theorem C20_413 : forall cfg s w r full z, reachable cfg s -> internal (gc cfg) = true -> 0 < max_len (gc cfg) ->
+  In w (workers s) -> w_st w = WReading -> w_cl w = CSent (RHttp r) full -> r_cl r = ClInt z -> max_len (gc cfg) < z ->
   exists s' st, step cfg s (TRead (w_id w)) = Some (s', [OAnswer (w_id w) st]) /\
     entered s' = entered s /\ In (set_st (WDone (OResp st)) w) (workers s') /\
     (r_pref r = PrefOk -> r_method r = true -> r_wk r = WkNone -> st = 413%N).
@@ -131,7 +143,8 @@ Print Assumptions C20_413.
 
 (* no other event ever enters a handler *)
 Theorem C20_enter_only_dispatch : forall cfg s e s' o c, step cfg s e = Some (s', o) -> In (OEnter c) o ->
-  exists w r, e = TRead c /\ find_w c (workers s) = Some w /\ w_cl w = CSent (RHttp r) /\ gate (gc cfg) r = GDispatch.
+  exists w r full, e = TRead c /\ find_w c (workers s) = Some w /\ w_cl w = CSent (RHttp r) full /\
+    gate (gc cfg) r = GDispatch.
 Proof. exact c20_enter_only_dispatch. Qed.
 Print Assumptions C20_enter_only_dispatch.
 
@@ -171,11 +184,12 @@ Proof. exact c20_shutdown_returns. Qed.
 Print Assumptions C20_shutdown_returns.
 
 (* ... and when it has returned: shutdown had been requested, every accepted connection finished and was waited
-   for, every request that entered the handler left it with its response written *)
+   for, every request that entered the handler left it: with its response written, or aborted (500) by the
+   socket timeout while the handler waited for the request body *)
 Theorem C20_shutdown : forall cfg s, reachable cfg s -> pc s = PDone ->
   stop s = true /\ workers s = [] /\
   (forall c, In c (accepted s) -> exists o, In (c, o) (finished s)) /\
-  (forall c, In c (entered s) -> In (c, OHandled) (finished s)).
+  (forall c, In c (entered s) -> In (c, OHandled) (finished s) \/ In (c, OAborted) (finished s)).
 Proof. exact c20_shutdown. Qed.
 Print Assumptions C20_shutdown.
 
@@ -194,13 +208,22 @@ Proof. exact (conj ex_progress_accept ex_progress_reap). Qed.
 Print Assumptions C20_nonvacuous_progress.
 
 Theorem C20_nonvacuous_silent : exists s w rlw, reachable cfgA s /\ timeout_on cfgA = true /\ pc s = PSelect rlw false /\
-  stop s = false /\ In w (workers s) /\ w_st w = WReading /\ w_cl w = CIdle /\
+  stop s = false /\ In w (workers s) /\ waits_for_client w = true /\ w_st w = WReading /\ w_cl w = CIdle /\
   Z.of_nat (length (workers s)) = max_conn cfgA /\ backlog s <> [].
 Proof. exact ex_silent. Qed.
 Print Assumptions C20_nonvacuous_silent.
 
-Theorem C20_nonvacuous_413 : exists s w r z, reachable cfgA s /\ internal (gc cfgA) = true /\ 0 < max_len (gc cfgA) /\
-  In w (workers s) /\ w_st w = WReading /\ w_cl w = CSent (RHttp r) /\ r_cl r = ClInt z /\ max_len (gc cfgA) < z /\
+(* silence inside the head (client 0) and with the body outstanding (client 1, inside the handler), a third client waits *)
+Theorem C20_nonvacuous_silent_phases : exists s w0 w1, reachable cfgA s /\ timeout_on cfgA = true /\
+  pc s = PSelect [0; 1]%N false /\ stop s = false /\ length (backlog s) = 1%nat /\
+  In w0 (workers s) /\ w_st w0 = WReading /\ w_cl w0 = CPartial /\ waits_for_client w0 = true /\
+  In w1 (workers s) /\ w_st w1 = WBody /\ w_cl w1 = CSent (with_body 5) false /\ waits_for_client w1 = true /\
+  handling s = 1%nat /\ entered s = [1%N].
+Proof. exact ex_silent_phases. Qed.
+Print Assumptions C20_nonvacuous_silent_phases.
+
+Theorem C20_nonvacuous_413 : exists s w r full z, reachable cfgA s /\ internal (gc cfgA) = true /\ 0 < max_len (gc cfgA) /\
+  In w (workers s) /\ w_st w = WReading /\ w_cl w = CSent (RHttp r) full /\ r_cl r = ClInt z /\ max_len (gc cfgA) < z /\
   r_pref r = PrefOk /\ r_method r = true /\ r_wk r = WkNone.
 Proof. exact ex_413. Qed.
 Print Assumptions C20_nonvacuous_413.
